@@ -58,7 +58,15 @@ def demo(name, d):
     return False, False, "no demonstration found"
 
 
+def _term(signum, frame):
+    restore()
+    sys.exit(3)
+
+
 def main():
+    import signal
+    signal.signal(signal.SIGTERM, _term)
+    signal.signal(signal.SIGINT, _term)
     mode = sys.argv[1] if len(sys.argv) > 1 else "run"
     args = [a for a in sys.argv[2:] if not a.startswith("--")]
     allchecks = "--all" in sys.argv
